@@ -65,7 +65,7 @@ try:
                               "messages": [l.strip() for l in o.splitlines() if l.startswith("   ") and not l.startswith("   ok") and not l.startswith("   rule") and "analysed" not in l and "evidence" not in l][:4]}
     shutil.rmtree(evdir, ignore_errors=True)
 finally:
-    sh("git -C /repo checkout -- .")
+    sh("git -C /repo checkout -- . && git -C /repo clean -fdq")
 meta["checks_reporting"] = results
 meta["detected"] = any(v["exit"] == 1 for v in results.values())
 print("detected by:", {p: v["violated"] or v["errors"] for p, v in results.items()} or "NOTHING")
